@@ -145,7 +145,8 @@ type c19Harness struct {
 	script  []c19Res
 	units   []int // what each scraper's payload reported as MetricCount()/LogRecordCount() (observed input of the model)
 	sinkErr bool
-	sinkN   int
+	empty   bool          // the next consumer takes ownership: it moves everything out of the payload before it returns
+	sinkN   int           // items the next consumer received, counted at call entry
 	entered chan struct{} // a scrape reached its first scraper
 	gate    chan struct{} // released by the test when the scrape may proceed
 	scrapes int           // touched by the controller goroutine only
@@ -177,13 +178,13 @@ func TestVerifC19Scraper(t *testing.T) {
 	out.Linef("model c19-scrape 1")
 	n := vN(1500)
 	// thorough: EXHAUSTIVE small scope for both controllers — one scrape of two scrapers and two scrapes of one scraper over
-	// {ok 0 items, ok 2, partial 1 item + 1 failed, failed without data, failed with 2 items to drop} x {next ok, next fails};
+	// {ok 0 items, ok 2, partial 1 item + 1 failed, failed without data, failed with 2 items to drop} x {next ok, next fails} x {next consumer keeps / empties the payload};
 	// case index c19Exh+e decodes to the e-th script (so a single one replays alone)
 	const c19Exh = 1000000
 	exhRes := []c19Res{{kind: "ok"}, {kind: "ok", items: 2}, {kind: "part", items: 1, failed: 1}, {kind: "fail", zero: true}, {kind: "fail", items: 2}}
 	cases := vCases(n)
 	if vThorough() && os.Getenv("VERIF_REPLAY_CASE") == "" {
-		for e := 0; e < 300; e++ {
+		for e := 0; e < 600; e++ {
 			cases = append(cases, c19Exh+e)
 		}
 	}
@@ -192,18 +193,25 @@ func TestVerifC19Scraper(t *testing.T) {
 		logsCtrl := c%2 == 1
 		k := 1 + rnd.IntN(3)
 		ticks := 1 + rnd.IntN(6)
-		if c < 2 {
-			k, ticks = 1, 1 // corpus: the Lean witness (one scraper returning one item, next consumer succeeds), metrics then logs
+		const corpus = 6
+		if c < corpus {
+			// corpus, metrics (even) and logs (odd) controller, one scraper, one scrape:
+			// 0/1 the Lean witness (one item, next consumer succeeds);
+			// 2/3 three items, next consumer EMPTIES the payload and succeeds; 4/5 … empties it and fails
+			k, ticks = 1, 1
 		}
 		var exhScript [][]c19Res // per scrape, per scraper
 		var exhSinkErr []bool
+		exhEmpty := false
 		mode := "rand"
-		if c < 2 {
+		if c < corpus {
 			mode = "corpus"
 		}
 		if c >= c19Exh {
 			mode = "exh"
 			e := (c - c19Exh) / 2
+			exhEmpty = e >= 150 // every script once with a plain and once with a payload-emptying next consumer
+			e %= 150
 			if e < 50 {
 				k, ticks = 2, 1
 				exhScript = [][]c19Res{{exhRes[e%5], exhRes[(e/5)%5]}}
@@ -272,20 +280,26 @@ func TestVerifC19Scraper(t *testing.T) {
 		if logsCtrl {
 			sink, _ := consumer.NewLogs(func(_ context.Context, ld plog.Logs) error {
 				h.sinkN = ld.LogRecordCount()
+				if h.empty { // as a batching consumer does: the resources now belong to it
+					ld.ResourceLogs().MoveAndAppendTo(plog.NewLogs().ResourceLogs())
+				}
 				if h.sinkErr {
 					return errors.New("next consumer failed")
 				}
 				return nil
-			})
+			}, consumer.WithCapabilities(consumer.Capabilities{MutatesData: true}))
 			ctrl, err = NewLogsController(cfg, rset, sink, opts...)
 		} else {
 			sink, _ := consumer.NewMetrics(func(_ context.Context, md pmetric.Metrics) error {
 				h.sinkN = md.DataPointCount()
+				if h.empty {
+					md.ResourceMetrics().MoveAndAppendTo(pmetric.NewMetrics().ResourceMetrics())
+				}
 				if h.sinkErr {
 					return errors.New("next consumer failed")
 				}
 				return nil
-			})
+			}, consumer.WithCapabilities(consumer.Capabilities{MutatesData: true}))
 			ctrl, err = NewMetricsController(cfg, rset, sink, opts...)
 		}
 		if err != nil {
@@ -299,7 +313,7 @@ func TestVerifC19Scraper(t *testing.T) {
 
 		prev := [3][2]int64{}
 		mixed, refused := false, false
-		planned := 0
+		planned, nEmpty := 0, 0
 		plan := func() {
 			kept, dropped := false, false
 			tk := planned
@@ -317,6 +331,8 @@ func TestVerifC19Scraper(t *testing.T) {
 				}
 				if c < 2 {
 					r = c19Res{kind: "ok", items: 1}
+				} else if c < corpus {
+					r = c19Res{kind: "ok", items: 3}
 				}
 				if exhScript != nil {
 					r = exhScript[tk][i]
@@ -329,9 +345,17 @@ func TestVerifC19Scraper(t *testing.T) {
 					kept = true
 				}
 			}
-			h.sinkErr = c >= 2 && h.rnd.IntN(3) == 0
+			h.sinkErr = h.rnd.IntN(3) == 0
+			h.empty = h.rnd.IntN(3) == 0
+			if c < corpus {
+				h.sinkErr, h.empty = c >= 4, c >= 2
+			}
 			if exhSinkErr != nil {
 				h.sinkErr = exhSinkErr[tk]
+				h.empty = exhEmpty
+			}
+			if h.empty {
+				nEmpty++
 			}
 			h.sinkN = -1
 			mixed = mixed || (kept && dropped)
@@ -354,7 +378,7 @@ func TestVerifC19Scraper(t *testing.T) {
 					parts = append(parts, fmt.Sprintf("fail:%d", it))
 				}
 			}
-			out.Linef("op tick res=%s sinkerr=%d", strings.Join(parts, ","), vB(h.sinkErr))
+			out.Linef("op tick res=%s sinkerr=%d empty=%d", strings.Join(parts, ","), vB(h.sinkErr), vB(h.empty))
 		}
 		observe := func() {
 			m := c19Collect(tt)
@@ -486,6 +510,7 @@ func TestVerifC19Scraper(t *testing.T) {
 		}
 		out.Linef("stat scrapes %d", ticks)
 		out.Linef("stat scrapers %d", k)
+		out.Linef("stat emptying_consumer %d", nEmpty)
 		out.Linef("stat ctrl_%s 1", kind)
 		out.Linef("stat mode_%s 1", mode)
 		out.Linef("end")
